@@ -82,9 +82,9 @@ class UnwhitenedVariationalStrategy(_VariationalStrategy):
         var_cov = CholLinearOperator(var_cov_root)
         # m is the mean of q(u) itself (not of a whitened variable): the pseudo targets below are relative to the
         # prior mean, which amortized_exact_gp adds back
-        # (the prior mean is evaluated here, not read from the memoised prior: this runs under no_grad inside
-        # amortized_exact_gp, and a graph-free prior left in the memo would cut the gradient of later KL terms)
-        var_mean = self.variational_distribution.mean - self.model.forward(self.inducing_points).mean
+        # (q(u) and the prior mean are evaluated here, not read from the memoised properties: this runs under no_grad
+        # inside amortized_exact_gp, and a graph-free value left in the memo would cut the gradient of later KL terms)
+        var_mean = self._variational_distribution().mean - self.model.forward(self.inducing_points).mean
         if var_mean.shape[-1] != 1:
             var_mean = var_mean.unsqueeze(-1)
 
